@@ -7,6 +7,7 @@ import Dtaiverif.Proofs.Wps
 import Dtaiverif.Proofs.Compact
 import Dtaiverif.Proofs.CostInst
 import Dtaiverif.Generated.LayoutPlan
+import Dtaiverif.Props.PyBand
 
 namespace Dtai
 variable {α : Type} [LinearOrderedAddCommMonoidWithTop α]
